@@ -361,11 +361,25 @@ def run_compiler_check(ctx, res, prop):
         # the instance lies in the class of the Lean theorem C02_fragment_partial (single tree-like definition)
         # and the model reproduces the real gate list: the theorem applies, a wrong output can only be new
         in_frag = bool(prop == "C02" and rep is not None and not mismatch and rep.get("in_fragment"))
+        frag_thm = "C02_fragment_partial"
         if in_frag:
             stats["in_fragment"] += 1
             if not rep.get("valid", True):
                 res.disagree(case, "model instance inside the class of C02_fragment_partial rejected by the Lean validator "
                              "(contradicts the theorem: model and proof out of sync)", code=None, model=dict(valid=False))
+        # C03 / C06: the classes of C03_fragment_partial (inCleanFragment) / C06_fragment_partial (inXorFragment),
+        # reported by the driver for uncompute=True runs; same rule: inside the class a failure is never a known finding
+        if prop in ("C03", "C06") and unc and rep is not None and not mismatch:
+            key, frag_thm, vkey = (("in_clean_fragment", "C03_fragment_partial", "clean") if prop == "C03"
+                                   else ("in_xor_fragment", "C06_fragment_partial", "xor"))
+            if rep.get(key):
+                in_frag = True
+                stats["in_fragment"] += 1
+                bad = (not rep.get(vkey, True)) or (prop == "C06" and rep.get("ret_never_control") is False)
+                if bad:
+                    res.disagree(case, f"model instance inside the class of {frag_thm} rejected by the Lean validator "
+                                 "(contradicts the theorem: model and proof out of sync)", code=None,
+                                 model={vkey: rep.get(vkey), "ret_never_control": rep.get("ret_never_control")})
         if rep is not None and not mismatch:
             if not events:
                 stats["event_free"] += 1
@@ -380,7 +394,7 @@ def run_compiler_check(ctx, res, prop):
             attributed = []
             if in_frag:
                 stats["in_fragment_bad"] += 1
-                what += " (instance inside the class of theorem C02_fragment_partial: never a known finding)"
+                what += f" (instance inside the class of theorem {frag_thm}: never a known finding)"
             elif rep is not None and not mismatch:
                 if not j["mapped"]:
                     fid = f"{prop}-ret-flat-names"
@@ -429,6 +443,12 @@ def run_compiler_check(ctx, res, prop):
         res.notes.append(f"{stats['in_fragment']} compiled instances lie in the decidable class of the Lean theorem "
                          "C02_fragment_partial (one definition, tree-like expression over the arguments) with the model "
                          "reproducing the real gate list: there the theorem applies and a failure is never attributed to a known finding")
+    if prop in ("C03", "C06"):
+        thm, cls = (("C03_fragment_partial", "inCleanFragment") if prop == "C03" else ("C06_fragment_partial", "inXorFragment"))
+        res.notes.append(f"{stats['in_fragment']} compiled instances lie in the decidable class of the Lean theorem {thm} "
+                         f"({cls}: one definition, tree-like expression over the arguments, every Or with at most two "
+                         "arguments, the return name requested) with the model reproducing the real gate list: there the "
+                         "theorem applies and a failure is never attributed to a known finding")
     res.notes.append("decided per compiled instance (exhaustive over its inputs) by validators whose soundness is proved; "
                      "the compiler model reproduces the real gate list exactly, ancilla choices logged from the real run")
     return res
